@@ -20,6 +20,10 @@ Everything synkit / rdkit is imported inside functions.
 from . import c03_common as K
 
 
+# partial matching (PartialMatcher engine): its own two "modes" (the reactor's partial=True on top of I / E)
+PARTIAL_MODES = {"P": dict(explicit_h=False, implicit_temp=True, partial=True), "Q": dict(partial=True)}
+
+
 def run_steps(spec):
     import networkx as nx
     import synkit.Synthesis.Reactor.syn_reactor as SR
@@ -29,6 +33,8 @@ def run_steps(spec):
     from synkit.Graph.syn_graph import SynGraph
     from synkit.Graph.canon_graph import GraphCanonicaliser
     K.quiet()
+    for k_, cfg_ in PARTIAL_MODES.items():
+        K.MODES.setdefault(k_, cfg_)
     mode = spec.get("mode", "E")
     core = bool(spec.get("core", True))
     invert = bool(spec.get("invert", False))
@@ -62,7 +68,7 @@ def run_steps(spec):
                 if form == "rule":
                     r = shared.get(("rule", st["rsmi"]))
                     if r is None:
-                        r = shared[("rule", st["rsmi"])] = (SynRule(g, canonicaliser=GraphCanonicaliser(), implicit_h=False) if mode == "I"
+                        r = shared[("rule", st["rsmi"])] = (SynRule(g, canonicaliser=GraphCanonicaliser(), implicit_h=False) if mode in ("I", "P")
                                                             else SynRule(g, canonicaliser=GraphCanonicaliser()))
                     tpl = r
                 else:
@@ -167,9 +173,14 @@ def steps_of(case, numberings=(), rng=None):
                 f["tpl_form"] = "graph"
             if stg != "all":        # the non-default strategies through every constructor / spelling of the option
                 f = [dict(ctor="from_smiles"), dict(enum=True, tpl_form="shared"), dict(ctor="from_smiles", enum=True), dict(sub_form="graph")][k % 4]
+            if case.get("mode") in PARTIAL_MODES:     # from_smiles has no `partial` parameter; a SynRule input bypasses the reactor's own rule construction
+                f.pop("ctor", None)
+                if f.get("tpl_form") == "rule":
+                    f["tpl_form"] = "shared"
             s.update(f)
             o = _OPTS[(k * 5 + 3) % len(_OPTS)]
-            if o:
+            if o and case.get("mode") not in PARTIAL_MODES:     # with partial=True embed_threshold also caps the number of results
+
                 s["opts"] = dict(o)
             if k % 7 == 4:
                 s["mutate"] = True
